@@ -4465,9 +4465,12 @@ class EntityMeta(type):
                              % (obj.__class__.__name__, pkval))
         elif obj.__class__ is entity: pass
         elif issubclass(obj.__class__, entity): pass
-        elif not issubclass(entity, obj.__class__): throw(TransactionError,
-            'Unexpected class change from %s to %s for object with primary key %r' %
-            (obj.__class__, entity, obj._pkval_))
+        elif not issubclass(entity, obj.__class__):
+            # a not yet loaded object can be an instance of a class which inherits from both classes, as in D(B, C)
+            if obj in cache.seeds[pk_attrs] and entity._subclasses_ & obj.__class__._subclasses_: obj._load_()
+            if not isinstance(obj, entity): throw(TransactionError,
+                'Unexpected class change from %s to %s for object with primary key %r' %
+                (obj.__class__, entity, obj._pkval_))
         elif obj._rbits_ or obj._wbits_: throw(NotImplementedError)
         else: obj.__class__ = entity
 
